@@ -17,6 +17,8 @@ pub(crate) fn parse_list<'a, 'b: 'a, R: Read>(
     let mut list = List::new();
 
     while !done {
+        #[cfg(feature = "verif-hooks")]
+        crate::haystack::verif_hooks::tick(crate::haystack::verif_hooks::SITE_LOOP);
         parser.lexer.read()?;
 
         if parser.lexer.is_char(b']') {
